@@ -136,6 +136,7 @@ type RigConfig struct {
 	ReentrantCreate        bool     // the other module answers a failed batch (response callback with an error) by creating a follow-up context
 	ReentrantPauseSiblings bool     // the other module answers "paused: insufficient balances" of one context by pausing its other contexts
 	ReentrantSelfKill      bool     // the other module answers a failed batch (response callback with an error) by killing that very context
+	ReentrantSelfStart     bool     // the other module answers a failed batch by starting that very context again (if it is paused)
 	ReentrantRestart       bool     // the other module reacts to a state callback (context paused for funds) by starting the context again at once
 	Reentrant              bool     // the other module reacts inside its callbacks: state callback -> kills that context; response callback with an error -> kills its other contexts
 	ResponseOnlyModules    []string // modules that registered a response callback but no state callback
@@ -281,6 +282,11 @@ func NewRig(cfg RigConfig) *Rig {
 				if _, cerr := r.sk.CreateRequestContext(ctx, rc.ServiceName, rc.Providers, rc.Consumer, rc.Input, rc.ServiceFeeCap, rc.Timeout,
 					false, false, 0, 0, servicetypes.RUNNING, 1, mod); cerr == nil {
 					rec.log = append(rec.log, CallbackRec{Kind: "create", Ctx: hexs(id)})
+				}
+			}
+			if rc, ok := r.sk.GetRequestContext(ctx, id); ok && cfg.ReentrantSelfStart && err != nil {
+				if r.sk.StartRequestContext(ctx, id, rc.Consumer) == nil {
+					rec.log = append(rec.log, CallbackRec{Kind: "selfstart", Ctx: hexs(id)})
 				}
 			}
 			if rc, ok := r.sk.GetRequestContext(ctx, id); ok && cfg.ReentrantSelfKill && err != nil {
